@@ -73,17 +73,20 @@ BeforeCheck  == IF RecordFirst THEN "recorded" ELSE "digested"
 BeforeRecord == IF RecordFirst THEN "digested" ELSE "moved"
 BeforeAnswer == IF RecordFirst THEN "moved"    ELSE "recorded"
 
-\* places where the real process can be killed, by the last completed step
+\* places where the real process can be killed, by the last completed step.  "midcopy" is a kill INSIDE the
+\* transfer of a new content into the store: the code publishes with one rename, so for the model (and for the
+\* unchanged code) it is a kill with the staged file still in place and nothing in the store; an implementation
+\* that transfers bytes under the final name is killed with half of them written.
 Sites(p) ==
     (CASE p = "idle"     -> {"idle"}
        [] p = "made"     -> {"mkstemp", "dump"}           \* dump: pickle.dump returned, file not yet flushed
        [] p = "staged"   -> {"chmod", "md5", "sha1"}
        [] p = "digested" -> {"encoded"}
-       [] p = "checked"  -> {"exists"}
+       [] p = "checked"  -> {"exists"} \cup (IF uex THEN {} ELSE {"midcopy"})
        [] p = "moved"    -> {"moved"}
        [] p = "recorded" -> {"setitem"})
     \cup (IF p = BeforeAnswer THEN {"presend", "sent"} ELSE {})
-AllSites == UNION { Sites(p) : p \in Pcs }
+AllSites == {"idle", "mkstemp", "dump", "chmod", "md5", "sha1", "encoded", "exists", "midcopy", "moved", "setitem", "presend", "sent"}
 
 -----------------------------------------------------------------------------
 TypeOK ==
@@ -168,6 +171,14 @@ MoveFails ==    \* the rename into the store raises (disk full, permission denie
     /\ nev' = nev + 1
     /\ UNCHANGED <<up, blobs, prime, dprime, nupd>>
 
+StagedLost ==   \* the staged file disappears between encode() on the client and Worker.do on the server (staging area
+                \* cleaned, disk trouble): move() raises before anything is recorded, the update is abandoned with an
+                \* error, the process lives on
+    /\ up /\ pc = "digested" /\ ~RecordFirst /\ nev < MaxEv
+    /\ pc' = "idle" /\ Forget /\ rep' = "none"
+    /\ nev' = nev + 1
+    /\ UNCHANGED <<up, orph, blobs, prime, dprime, nupd>>
+
 Close ==
     /\ up /\ pc = "idle" /\ nev < MaxEv
     /\ up' = FALSE /\ dprime' = prime /\ rep' = "none"
@@ -188,7 +199,7 @@ Next ==
     \/ \E reach \in BOOLEAN : Record(reach)
     \/ Answer
     \/ \E s \in AllSites : Crash(s)
-    \/ MoveFails
+    \/ MoveFails \/ StagedLost
     \/ Close \/ Purge
 
 Spec == Init /\ [][Next]_vars
